@@ -1,0 +1,19 @@
+//go:build verif
+
+package sigand
+
+// Contracts for the deductive checker in /verif (comment-only; compiled only under the verif tag).
+
+// AND composition (binary, heterogeneous): a transcript verifies iff both components verify, each under the
+// prefix of the shared challenge of ITS OWN challenge length; the simulator must simulate each component for
+// exactly the challenge prefix that Verify will later hand to it.
+//@ func (*ProtocolCartesian).Verify
+//@   property C08
+//@   ensures (err == nil) == (p.sigma0.Verify(statement.X0, commitment.A0, challengeBytes[:p.sigma0.GetChallengeBytesLength()], response.Z0) == nil && p.sigma1.Verify(statement.X1, commitment.A1, challengeBytes[:p.sigma1.GetChallengeBytesLength()], response.Z1) == nil)
+
+//@ func (*ProtocolCartesian).RunSimulator
+//@   property C08
+//@   let sim0 = p.sigma0.RunSimulator(statement.X0, challengeBytes[:p.sigma0.GetChallengeBytesLength()])
+//@   let sim1 = p.sigma1.RunSimulator(statement.X1, challengeBytes[:p.sigma1.GetChallengeBytesLength()])
+//@   ensures err == nil ==> res(sim0, 2) == nil && res(sim1, 2) == nil
+//@   ensures err == nil ==> result.A0 == res(sim0, 0) && result1.Z0 == res(sim0, 1) && result.A1 == res(sim1, 0) && result1.Z1 == res(sim1, 1)
